@@ -71,18 +71,27 @@ theorem completeOne_granted (x : Cmd) (ok : Bool) :
   · simp [h]
   · simp [h]
 
+theorem cancelCont_granted (x : Cmd) : ((cancelCont x).cont = .granted) ↔ (x.cont = .granted) := by
+  simp only [cancelCont]
+  by_cases h : x.cont = .waiting
+  · simp [h]
+  · simp [h]
+
 theorem nGranted_failAll (l : List Cmd) : nGranted (failAll l) = nGranted l := by
   induction l with
   | nil => rfl
   | cons a r ih =>
     simp only [failAll, List.map_cons, nGranted] at ih ⊢
     rw [ih]
-    by_cases hp : pendingCmd a = true
-    · rw [if_pos hp]
-      by_cases hg : a.cont = .granted
-      · rw [if_pos hg, if_pos ((completeOne_granted a false).2 hg)]
-      · rw [if_neg hg, if_neg (fun h => hg ((completeOne_granted a false).1 h))]
-    · rw [if_neg hp]
+    have e : ((cancelCont (if pendingCmd a = true then completeOne a false else a)).cont = .granted) ↔
+        (a.cont = .granted) := by
+      rw [cancelCont_granted]
+      split_ifs
+      · exact completeOne_granted a false
+      · exact Iff.rfl
+    by_cases hg : a.cont = .granted
+    · rw [if_pos hg, if_pos (e.2 hg)]
+    · rw [if_neg hg, if_neg (fun h => hg (e.1 h))]
 
 /-- measure of a state after `record` -/
 theorem mu_record_lt (s s0 : St) (c : Cls)
@@ -383,13 +392,14 @@ theorem cCont_dec (s s' : St) (h : cCont s = some s') : mu s' < mu s := by
       · simp only [Option.some.injEq] at h; subst h; exact hrec _ _ rfl rfl rfl rfl rfl rfl rfl rfl
       · simp only [Option.some.injEq] at h; subst h; exact hrec _ _ rfl rfl rfl rfl rfl rfl rfl rfl
       · rename_i hk hc
-        simp only [Option.some.injEq] at h; subst h
-        have := mu_setCmd s c { x with cont := if x.result.isNone then Cont.waiting else Cont.cancelled } x hx
-        have hng : ¬ ((if x.result.isNone = true then Cont.waiting else Cont.cancelled) = Cont.granted) := by
-          split_ifs <;> simp
-        simp only [hc, if_true, if_neg hng] at this
-        simp only [mu, setCmd] at this ⊢
-        omega
+        split_ifs at h
+        · simp only [Option.some.injEq] at h; subst h; exact hrec _ _ rfl rfl rfl rfl rfl rfl rfl rfl
+        · simp only [Option.some.injEq] at h; subst h
+          have := mu_setCmd s c { x with cont := Cont.waiting } x hx
+          have hng : ¬ (Cont.waiting = Cont.granted) := by simp
+          simp only [hc, if_true, if_neg hng] at this
+          simp only [mu, setCmd] at this ⊢
+          omega
       · simp only [Option.some.injEq] at h; subst h
         simp only [mu, hpos, posRank]
         omega
@@ -432,7 +442,9 @@ theorem cStart_dec (s s' : St) (h : cStart s = some s') : mu s' < mu s := by
       split
       · rename_i x hx
         obtain ⟨f1, f2, f3, f4, f5, f6, f7, _, _⟩ := issueCmd_fields s c x false
-        exact hrec0 _ _ f2 f1 f3 f4 f5 (issueCmd_granted s c x false hx) f6 f7
+        split_ifs
+        · exact hrec0 _ _ rfl rfl rfl rfl rfl (Nat.le_refl _) rfl rfl
+        · exact hrec0 _ _ f2 f1 f3 f4 f5 (issueCmd_granted s c x false hx) f6 f7
       · exact hrec0 _ _ rfl rfl rfl rfl rfl (Nat.le_refl _) rfl rfl
     | wait c =>
       simp only [startPhase]
